@@ -52,6 +52,9 @@ def units(tier, seed):
             out.append({"stage": "full", "p": 4, "alph": [0, 1, -1], "diag": False, "lo": lo, "hi": hi})
         for lo, hi in chunks(0, 3 ** 12, 64):
             out.append({"stage": "full", "p": 4, "alph": [0, 2, -1], "diag": False, "lo": lo, "hi": hi})
+        for alph in ([0, 1], [0, -1]):                  # every zero-diagonal pattern on 5 nodes (2^20), positive and negative
+            for lo, hi in chunks(0, 2 ** 20, 128):
+                out.append({"stage": "full", "p": 5, "alph": alph, "diag": False, "lo": lo, "hi": hi})
     return out
 
 
